@@ -1,26 +1,29 @@
 #!/bin/bash
-# Re-runs every archived seed against the current /repo tree with the check(s) that are recorded as detecting it.
-# Output: one line per seed: DETECTED / MISSED / STALE-PATCH. Never leaves /repo modified.
+# Re-runs every archived seed against the current /repo HEAD with the check(s) recorded as detecting it.
+# Each seed is applied in its own scratch worktree (VERIF_REPO) with its own output dir (VERIF_OUT), so /repo
+# and /verif/evidence are never touched and several seeds run at once.
+# usage: seedsweep.sh [name-prefix] ; output: one line per seed: DETECTED / MISSED / STALE-PATCH
 cd /verif
-git -C /repo diff --quiet || { echo "repo dirty"; exit 2; }
-only="$1"
-for d in seeded/*; do
-  name=$(basename $d)
-  [ -n "$only" ] && [[ "$name" != $only* ]] && continue
+only="${1:-}"; par="${SWEEP_PAR:-4}"
+one() {
+  d=$1; name=$(basename $d)
   checks=$(python3 -c "
-import json,re,sys
+import json,re
 m=json.load(open('$d/meta.json'))
-ids=re.findall(r'C\d\d(?= quick)', m['detected_by'])
 seen=[]
-for i in ids:
+for i in re.findall(r'C\d\d(?= quick)', m['detected_by']):
     if i not in seen: seen.append(i)
 print(' '.join(seen[:2]))")
-  if ! git -C /repo apply --check $PWD/$d/patch.diff 2>/dev/null; then echo "$name STALE-PATCH (does not apply to the current tree)"; continue; fi
-  git -C /repo apply $PWD/$d/patch.diff
+  wt=/tmp/sweep.$name; out=/tmp/sweepout.$name
+  rm -rf $out; git -C /repo worktree remove --force $wt >/dev/null 2>&1
+  git -C /repo worktree add --detach $wt HEAD >/dev/null 2>&1 || { echo "$name ERROR worktree"; return; }
+  if ! git -C $wt apply /verif/$d/patch.diff 2>/dev/null; then echo "$name STALE-PATCH (does not apply to the current tree)"; git -C /repo worktree remove --force $wt; return; fi
   res=MISSED
   for c in $checks; do
-    if ./verif $c quick 2>&1 | grep -q '^VIOLATION'; then res="DETECTED by $c"; break; fi
+    if VERIF_REPO=$wt VERIF_OUT=$out VERIF_WORKERS=4 ./verif $c quick 2>&1 | grep -q '^VIOLATION'; then res="DETECTED by $c"; break; fi
   done
-  git -C /repo checkout -- .
+  git -C /repo worktree remove --force $wt; rm -rf $out
   echo "$name $res (checks tried: $checks)"
-done
+}
+export -f one
+ls -d seeded/* | while read d; do n=$(basename $d); [ -n "$only" ] && [[ "$n" != $only* ]] && continue; echo $d; done | xargs -P $par -I{} bash -c 'one {}'
